@@ -54,6 +54,38 @@ func c11Graphs() []c11Graph {
 			gs[i].files = deep
 		}
 	}
+	// slots a page hands to its layout (`<template #name>` in the page, `<slot name>` in the layout or in a component the layout includes):
+	// every way of using such a slot (once, twice in a row, twice apart, three times, per loop iteration, through a component) x every
+	// shape of content (one node, two nodes, text, content that itself contains the slot, two slots that contain each other)
+	uses := [][2]string{
+		{"once", `<div><slot name="side"></slot></div>`},
+		{"twice-row", `<div><slot name="side"></slot><slot name="side"></slot></div>`},
+		{"twice-apart", `<div><slot name="side"></slot><hr><slot name="side"></slot><i>after</i></div>`},
+		{"three", `<div><slot name="side"></slot><slot name="side"></slot><slot name="side"></slot></div>`},
+		{"top-level", `<slot name="side"></slot><slot name="side"></slot>`},
+		{"in-loop", `<ul><li v-for="x in items"><slot name="side"></slot></li></ul><slot name="side"></slot>`},
+		{"loop-on-slot", `<div><slot v-for="x in items" name="side"></slot></div>`},
+		{"in-component", `<div><template include="box.vuego"></template><template include="box.vuego"></template></div>`},
+		{"with-foot", `<div><slot name="side"></slot><slot name="foot"></slot><slot name="side"></slot><slot name="foot"></slot></div>`},
+	}
+	contents := [][2]string{
+		{"one-node", `<template #side><nav>{{ t }}</nav></template>`},
+		{"two-nodes", `<template #side><nav>n</nav><b>two</b></template>`},
+		{"text", `<template #side>just text</template>`},
+		{"self", `<template #side><nav><slot name="side"></slot></nav></template>`},
+		{"mutual", `<template #side><nav><slot name="foot"></slot></nav></template><template #foot><b><slot name="side"></slot></b></template>`},
+		{"scoped", `<template #side="p"><nav>{{ p.k }}</nav></template>`},
+	}
+	for _, up := range uses {
+		for _, cp := range contents {
+			un, u, cn, c := up[0], up[1], cp[0], cp[1]
+			gs = append(gs, c11Graph{"layout-slot:" + un + ":" + cn, map[string]string{
+				"p.vuego":          "---\nlayout: main\nt: T\n---\n" + c + "\n<p>body</p>\n",
+				"layouts/main.vuego": u + "\n<main v-html=\"content\"></main>\n",
+				"box.vuego":        `<section><slot name="side" :k="1">fb</slot></section>`,
+			}, false})
+		}
+	}
 	return gs
 }
 
@@ -63,7 +95,7 @@ func c11GraphEval(g c11Graph) *Case {
 	if _, ok := g.files["components/LoopEr.vuego"]; ok {
 		opts = append(opts, vuego.WithComponents())
 	}
-	res := renderPage(g.files, "p.vuego", map[string]any{"items": []any{1}}, opts...)
+	res := renderPage(g.files, "p.vuego", map[string]any{"items": []any{1, 2}}, opts...)
 	c.Impl = res.canon()
 	v := &Verdict{OK: true}
 	c.Oracle = v
@@ -175,7 +207,11 @@ func runC11(r *Run, replay *Case) {
 	r.Res.Rule = "graph: include/layout graphs with every cycle shape (self, 2, 3, via slot content, in loop, in v-if, via component tag), diamond, deep chain, missing targets — each in an isolated child process; " +
 		"builtins: every function of DefaultFuncMap x 31 argument values incl. typed nils x 7 call forms x 2 positions; typed: 36 directive positions x 31 data values of every Go type incl. funcs, chans, unexported fields, non-string-keyed maps; bytes: mutated template and front-matter byte strings; non-trivial = every case"
 	for _, g := range c11Graphs() {
-		sub, verdict := runIsolated("C11", map[string]any{"stream": "graph", "desc": g.desc}, g.desc, 40*time.Second)
+		limit := 40 * time.Second
+		if strings.HasPrefix(g.desc, "layout-slot:") {
+			limit = 8 * time.Second
+		}
+		sub, verdict := runIsolated("C11", map[string]any{"stream": "graph", "desc": g.desc}, g.desc, limit)
 		c := &Case{Name: g.desc, Input: map[string]any{"stream": "graph", "desc": g.desc}, Key: "graph:" + g.desc, Tags: []string{"stream:graph", "isolated"}}
 		if sub != nil {
 			c.Impl = sub.Impl
